@@ -970,6 +970,178 @@ def rule_I3(ctx, rule: str = "I3") -> None:
                         f"keys that are not emitted forms (e.g. the original proto field name) are mapped with {fb}, but the plugin derived the Python name with {want}")
 
 
+def rule_I4(ctx, rule: str = "I4") -> None:
+    """every name an enum member is generated under went through the sanitiser: in EnumDefinitionCompiler.__post_init__, what
+    reaches `EnumEntry(name=..)` or `<entry>.name = ..` - on the ordinary path and on the fallback taken when prefix-stripped
+    names collide - is the result of pythonize_enum_member_name / sanitize_name (functions of compile/naming and casing that
+    I1 decides at all keywords), never a proto value name as it stands.  A small def-use pass over the locals of the method:
+    comprehension results, loop / comprehension targets bound from zip / enumerate over such lists, re-assignments joined."""
+    from ..src import M_MODELS
+    mod = ctx.repo.mod(M_MODELS)
+    fn = mod.func("EnumDefinitionCompiler.__post_init__")
+    ctx.analysed("EnumDefinitionCompiler.__post_init__")
+    name = "EnumDefinitionCompiler:member-names-sanitised"
+    # the sanitisers: casing.sanitize_name, and every function of compile/naming whose returns are all fed by a sanitiser
+    # (the same def-use pass, run to a fixed point)
+    SAN = {"sanitize_name"}
+    nam = ctx.repo.mod(M_NAMING)
+    for _ in range(4):
+        grew = False
+        for q, h in nam.functions():
+            if "." in q or q in SAN:
+                continue
+            if _san_pass(h, SAN)[1] is True:
+                SAN.add(q)
+                grew = True
+        if not grew:
+            break
+    results, _ret = _san_pass(fn, SAN)
+    _finish_I4(ctx, rule, name, mod, fn, results)
+
+
+def _finish_I4(ctx, rule, name, mod, fn, results) -> None:
+    if not results:
+        ctx.inconclusive(rule, name, "no EnumEntry(name=..) construction found", mod.loc(fn))
+        return
+    ctx.count(len(results))
+    raw = [nd for r, nd in results if r is False]
+    unk = [nd for r, nd in results if r is None]
+    if raw:
+        ctx.refuted(rule, name, "raw-proto-name", mod.loc(raw[0]),
+                    "an enum member can be generated under the proto value name as it stands (not passed through sanitize_name / pythonize_enum_member_name): a value named like a "
+                    "Python keyword (None, class, ...) makes the generated module a syntax error",
+                    "enum Kind { KIND_None = 0; None = 1; }  (prefix-stripped names collide, the fallback keeps the raw names)")
+    elif unk:
+        ctx.inconclusive(rule, name, f"a member name of unknown origin: {ast.unparse(unk[0])[:80]}", mod.loc(unk[0]))
+    else:
+        ctx.proved(rule, name, mod.loc(fn), f"{len(results)} name sinks, all fed by the sanitiser")
+
+
+def _san_pass(fn, SAN):
+    """-> ([(status, node)] for the name sinks of fn, joined status of fn's return values)"""
+
+    env = {}      # local -> True (sanitised) / False (raw) / None (unknown); lists stand for their elements
+
+    def join(a, b):
+        if a is False or b is False:
+            return False
+        if a is None or b is None:
+            return None
+        return True
+
+    def elem(e, scope):
+        """sanitisation status of the elements of iterable e"""
+        if isinstance(e, ast.Name):
+            return scope.get(e.id, env.get(e.id))
+        if isinstance(e, (ast.ListComp, ast.GeneratorExp)):
+            return san(e, scope)
+        if isinstance(e, ast.Call) and isinstance(e.func, ast.Name) and e.func.id in ("list", "tuple", "sorted", "reversed", "iter") and len(e.args) == 1:
+            return elem(e.args[0], scope)
+        return None
+
+    def bind(target, it, scope):
+        """bind the names of a loop / comprehension target from the iterable"""
+        if isinstance(it, ast.Call) and isinstance(it.func, ast.Name) and it.func.id == "enumerate" and it.args and isinstance(target, ast.Tuple) and len(target.elts) == 2:
+            bind(target.elts[1], it.args[0], scope)
+            return
+        if isinstance(it, ast.Call) and isinstance(it.func, ast.Name) and it.func.id == "zip" and isinstance(target, ast.Tuple) and len(target.elts) == len(it.args):
+            for t_, a_ in zip(target.elts, it.args):
+                bind(t_, a_, scope)
+            return
+        if isinstance(target, ast.Name):
+            scope[target.id] = elem(it, scope)
+        else:
+            for x in ast.walk(target):
+                if isinstance(x, ast.Name):
+                    scope[x.id] = None
+
+    def san(e, scope):
+        if isinstance(e, ast.Call):
+            f = e.func.id if isinstance(e.func, ast.Name) else e.func.attr if isinstance(e.func, ast.Attribute) else None
+            if f in SAN:
+                return True
+            return None
+        if isinstance(e, ast.Name):
+            return scope.get(e.id, env.get(e.id))
+        if isinstance(e, ast.Attribute) and e.attr == "name":
+            # `<proto value>.name`: a raw name of the schema; `<entry>.name` of an entry built here: what the entry was given
+            base = san(e.value, scope) if isinstance(e.value, ast.Name) and (e.value.id in scope or e.value.id in env) and (scope.get(e.value.id, env.get(e.value.id)) == "entry") else None
+            return False if base is None else None
+        if isinstance(e, ast.IfExp):
+            return join(san(e.body, scope), san(e.orelse, scope))
+        if isinstance(e, ast.Subscript) and isinstance(e.value, ast.Name):
+            return elem(e.value, scope)          # an element of a list of names
+        if isinstance(e, (ast.ListComp, ast.GeneratorExp)):
+            sc = dict(scope)
+            for g_ in e.generators:
+                bind(g_.target, g_.iter, sc)
+            return san(e.elt, sc)
+        if isinstance(e, ast.Constant) and isinstance(e.value, str):
+            return None
+        return None
+
+    sinks = []     # (status, node)
+
+    def scan_expr(e, scope):
+        for c in ast.walk(e):
+            if isinstance(c, ast.Call) and ast.unparse(c.func).endswith("EnumEntry"):
+                for k in c.keywords:
+                    if k.arg == "name":
+                        # the scope at the call: comprehension targets around it
+                        sinks.append((k.value, c))
+
+    def visit(stmts, scope):
+        for st in stmts:
+            if isinstance(st, (ast.Assign, ast.AnnAssign)) and getattr(st, "value", None) is not None:
+                tgts = st.targets if isinstance(st, ast.Assign) else [st.target]
+                for t in tgts:
+                    if isinstance(t, ast.Name):
+                        v = san(st.value, scope)
+                        env[t.id] = v if t.id not in env else join(env[t.id], v)
+                    elif isinstance(t, ast.Attribute) and t.attr == "name" and not (isinstance(t.value, ast.Name) and t.value.id == "self"):
+                        results.append((san(st.value, scope), st))
+            elif isinstance(st, ast.Return) and st.value is not None:
+                rets.append(st.value)
+            elif isinstance(st, ast.For):
+                sc = dict(scope)
+                bind(st.target, st.iter, sc)
+                visit(st.body, sc)
+            elif isinstance(st, ast.If):
+                visit(st.body, scope)
+                visit(st.orelse, scope)
+            elif isinstance(st, (ast.With, ast.Try)):
+                visit(st.body, scope)
+            # EnumEntry(name=..) calls inside this statement, with the comprehension scopes around them
+            for c in ast.walk(st) if not isinstance(st, (ast.For, ast.If, ast.With, ast.Try)) else []:
+                if isinstance(c, (ast.ListComp, ast.GeneratorExp)):
+                    sc = dict(scope)
+                    for g_ in c.generators:
+                        bind(g_.target, g_.iter, sc)
+                    for k in [k for cc in ast.walk(c.elt) if isinstance(cc, ast.Call) and ast.unparse(cc.func).endswith("EnumEntry") for k in cc.keywords if k.arg == "name"]:
+                        pending.append((k.value, sc, c))
+                elif isinstance(c, ast.Call) and ast.unparse(c.func).endswith("EnumEntry") and not any(c in list(ast.walk(lc.elt)) for lc in ast.walk(st) if isinstance(lc, (ast.ListComp, ast.GeneratorExp))):
+                    for k in c.keywords:
+                        if k.arg == "name":
+                            pending.append((k.value, dict(scope), c))
+
+    results = []
+    pending = []
+    rets = []
+    visit(fn.body, {})
+    # joined statuses are final only after the whole body was read (a later re-assignment taints earlier-bound lists too)
+    for v, sc, node in pending:
+        sc2 = dict(sc)
+        if isinstance(node, (ast.ListComp, ast.GeneratorExp)):
+            sc2 = {}
+            for g_ in node.generators:
+                bind(g_.target, g_.iter, sc2)
+        results.append((san(v, sc2), node))
+    ret_status = True if rets else None
+    for r in rets:
+        ret_status = join(ret_status, san(r, {}))
+    return results, ret_status
+
+
 def run(ctx) -> None:
     ctx.rules_run.append("I1")
     rule_I1(ctx)
@@ -979,6 +1151,8 @@ def run(ctx) -> None:
     rule_I3(ctx)
     ctx.rules_run.append("K6")
     rule_K6(ctx)
+    ctx.rules_run.append("I4")
+    rule_I4(ctx)
     from . import jsonrules
     ctx.rules_run += ["J4", "K2"]
     jsonrules.rule_J4(ctx)      # from_dict maps every key through safe_snake_case (the only decided part of the retraction clause)
